@@ -61,7 +61,8 @@ CLAUSES = {
     # calibrated on the thorough tier of the unchanged tree (every failure the finding produced there had this clause)
     ('F-02a', 'C02'): {1}, ('F-02b', 'C02'): {2}, ('F-02c', 'C02'): {2},
     ('F-02b', 'C04'): {32},
-    ('F-02b', 'C12'): {69},          # the restarted blocked customer starts in a shift with zero servers          # a restarted blocked customer: service start after its (earlier) exit stamp
+    ('F-02b', 'C12'): {69},
+    ('F-12a', 'C14'): {182}, ('F-12d', 'C14'): {182},   # the stranded customer's service end is the event left unexecuted          # the restarted blocked customer starts in a shift with zero servers          # a restarted blocked customer: service start after its (earlier) exit stamp
 }
 
 
@@ -231,6 +232,36 @@ def _f11a(pid, cfg, tr, v):
             if any(x[0] == 'Route' and x[8] == 1 and x[2] == e[2] and x[4] == e[1] for x in cev):
                 return True
     return False
+
+
+def _stranded(cfg, snap, node_ok):
+    for n in snap['nodes']:
+        j = n['id'] - 1
+        if not node_ok(j, cfg['servers'][j]):
+            continue
+        ids = set(x['id'] for x in (n['servers'] or []))
+        for q in n['queues']:
+            for i in q:
+                d = snap['inds'][i]
+                if isinstance(d['server'], int) and d['server'] >= 1 and d['server'] not in ids and not d['interrupted']:
+                    return True
+    return False
+
+
+@trigger('F-12a')
+def _f12a(pid, cfg, tr, v):
+    """a customer attached to a server that its node has retired, at a node with a 'reroute' Schedule (rerouted into the same node)"""
+    if v[0] != 'R':
+        return False
+    vf = frame_verdict(pid, tr, v)
+    k = vf[1]
+    if not isinstance(k, int) or k < 1:
+        return False
+    k = min(k, len(tr.frames))
+    if k < 1:
+        return False
+    ok = lambda j, sv: isinstance(sv, dict) and sv['kind'] == 'sched' and sv.get('pre') == 'reroute'
+    return any(_stranded(cfg, snap, ok) for snap in (tr.frames[k - 1]['snap'], tr.frames[max(k - 2, 0)]['snap']))
 
 
 @trigger('F-12d')
